@@ -17,7 +17,9 @@ THEOREMS = [("Sylvia.Thm.C18", "C18." + t) for t in
              "data_wrong_scenario_diag", "data_wrong_place_diag"]] + \
            [("Sylvia.Thm.Obl.Complete.C18", "Obl.extraction_complete_C18"), ("Sylvia.Thm.Obl.T.msgTypeNew_documented", "Obl.msgTypeNew_documented"),
             ("Sylvia.Thm.Obl.T.replyOn_documented", "Obl.replyOn_documented"),
-            ("Sylvia.Thm.ReplyOnFn", "ReplyOnFn.excludes_eq"), ("Sylvia.Thm.ReplyOnFn", "ReplyOnFn.excludes_symmetric")]
+            ("Sylvia.Thm.ReplyOnFn", "ReplyOnFn.excludes_eq"), ("Sylvia.Thm.ReplyOnFn", "ReplyOnFn.excludes_symmetric"),
+            ("Sylvia.Thm.ReplyParamFn", "ReplyParamFn.as_data_field_spec"), ("Sylvia.Thm.ReplyParamFn", "ReplyParamFn.assert_no_redundant_params_spec"),
+            ("Sylvia.Thm.ReplyParamFn", "ReplyParamFn.enumFindFrom_first")]
 
 
 # ---------------------------------------------------------------------------------------------
@@ -525,6 +527,11 @@ def run(ctx):
     ctx.cov["function_translator_replyon"] = {"source": "sylvia-derive/src/parser/attributes/msg.rs::ReplyOn::excludes", "problems": ro_problems}
     if ro_problems:
         ctx.obligation_failed("function-translator(replyon)", "; ".join(ro_problems)[:1500])
+    # ... and the placement rules of `#[sv::data]` / `#[sv::payload(raw)]` parameters (as_data_field, assert_no_redundant_params of reply.rs)
+    rp_problems = rs2lean.regenerate("replyparams")
+    ctx.cov["function_translator_replyparams"] = {"source": "sylvia-derive/src/contract/communication/reply.rs::{as_data_field, assert_no_redundant_params}", "problems": rp_problems}
+    if rp_problems:
+        ctx.obligation_failed("function-translator(replyparams)", "; ".join(rp_problems)[:1500])
     c.prove(ctx, ["Sylvia.Thm.C18"], THEOREMS)
     rng = random.Random(ctx.seed * 19 + 18)
     progs, ops, expect = [], [], []
